@@ -13,6 +13,7 @@ import (
 	"os"
 	"path/filepath"
 	"regexp"
+	"runtime"
 	"sort"
 	"strings"
 	"sync"
@@ -351,6 +352,58 @@ func c01Worker(w *W) {
 			return s
 		}
 		L := func(n string) lvl { return c01byName[n] }
+		// the same routing question while 8 goroutines log events of DIFFERENT levels through the same logger at the same
+		// time (the rule is per event: whatever the fan-out keeps between events must not leak from one level to another).
+		// In one case in five this happens after the sequential calls, in another one in five BEFORE them: then the logger's
+		// very first events arrive from 8 goroutines at the same moment (spin barrier) - whatever a logger prepares on first
+		// use, the first events are routed by the declared ranges like all later ones.
+		var cpanic any
+		concurrentPass := func(rounds int) {
+			const G = 8
+			plans := make([][]c01call, G)
+			for g := 0; g < G; g++ {
+				for rd := 0; rd < rounds; rd++ {
+					for j := range c01levels {
+						l := c01levels[(j*7+g*3+rd)%len(c01levels)]
+						k++
+						plans[g] = append(plans[g], c01call{fmt.Sprintf("id-%dx%d-%d", w.Spec.Shard, ci, k), l, "Record(concurrent)"})
+					}
+				}
+				calls = append(calls, plans[g]...)
+			}
+			var wg sync.WaitGroup
+			var cpv atomic.Value
+			var ready atomic.Int64
+			for g := 0; g < G; g++ {
+				wg.Add(1)
+				go func(plan []c01call) {
+					defer wg.Done()
+					ready.Add(1)
+					for spins := 0; ready.Load() < G; spins++ {
+						if spins%256 == 255 {
+							runtime.Gosched()
+						}
+					}
+					if v, _ := catch(func() {
+						for _, cl := range plan {
+							log.Record(ctx, cl.level.l, tag, 1, log.Msg(cl.id))
+						}
+					}); v != nil {
+						cpv.Store(fmt.Sprint(v))
+					}
+				}(plans[g])
+			}
+			wg.Wait()
+			if v := cpv.Load(); v != nil {
+				cpanic = v
+				w.Violate("C01:log-panic:"+c.Kind, fmt.Sprintf("a concurrent log call panicked under a %s configuration: %v", c.Kind, v), cs)
+			}
+			w.Count("events_logged_concurrently_at_mixed_levels", int64(G*rounds*len(c01levels)))
+		}
+		if ci%5 == 3 {
+			concurrentPass(2)
+			w.Count("cases_whose_first_events_were_concurrent", 1)
+		}
 		pv, st := catch(func() {
 			s := id("Trace", L("TRACE"))
 			log.Trace(ctx, tag, func() []log.Field { return []log.Field{log.Msg(s)} })
@@ -376,41 +429,10 @@ func c01Worker(w *W) {
 			w.Violate("C01:log-panic:"+c.Kind, fmt.Sprintf("a log call panicked under a %s configuration: %v\n%s", c.Kind, pv, trunc(st, 1500)), cs)
 		}
 		if pv == nil && ci%5 == 1 {
-			// the same routing question while 8 goroutines log events of DIFFERENT levels through the same logger at the same
-			// time (the rule is per event: whatever the fan-out keeps between events must not leak from one level to another)
-			const G, rounds = 8, 6
-			plans := make([][]c01call, G)
-			for g := 0; g < G; g++ {
-				for rd := 0; rd < rounds; rd++ {
-					for j := range c01levels {
-						l := c01levels[(j*7+g*3+rd)%len(c01levels)]
-						k++
-						plans[g] = append(plans[g], c01call{fmt.Sprintf("id-%dx%d-%d", w.Spec.Shard, ci, k), l, "Record(concurrent)"})
-					}
-				}
-				calls = append(calls, plans[g]...)
-			}
-			var wg sync.WaitGroup
-			var cpv atomic.Value
-			for g := 0; g < G; g++ {
-				wg.Add(1)
-				go func(plan []c01call) {
-					defer wg.Done()
-					if v, _ := catch(func() {
-						for _, cl := range plan {
-							log.Record(ctx, cl.level.l, tag, 1, log.Msg(cl.id))
-						}
-					}); v != nil {
-						cpv.Store(fmt.Sprint(v))
-					}
-				}(plans[g])
-			}
-			wg.Wait()
-			if v := cpv.Load(); v != nil {
-				pv = v
-				w.Violate("C01:log-panic:"+c.Kind, fmt.Sprintf("a concurrent log call panicked under a %s configuration: %v", c.Kind, v), cs)
-			}
-			w.Count("events_logged_concurrently_at_mixed_levels", int64(G*rounds*len(c01levels)))
+			concurrentPass(6)
+		}
+		if pv == nil && cpanic != nil {
+			pv = cpanic
 		}
 		if pv2, st2 := catch(log.Destroy); pv2 != nil {
 			w.Violate("C01:destroy-panic:"+c.Kind, fmt.Sprintf("Destroy panicked: %v\n%s", pv2, trunc(st2, 1200)), cs)
